@@ -29,6 +29,49 @@ func init() {
 	nameOf := func(v value) string { return concStr(v, "verifh draw name") }
 
 	H("Symbolic", func(fr *frame, args []value) value { return true })
+	boolList := func(fr *frame, v value) []*Term {
+		b := fr.i.path.bank()
+		var ts []*Term
+		for _, x := range v.([]value) {
+			ts = append(ts, termOf(b, x))
+		}
+		return ts
+	}
+	H("And", func(fr *frame, args []value) value {
+		return mkval(fr.i.path.bank().And(boolList(fr, args[1])...), types.Bool)
+	})
+	H("Or", func(fr *frame, args []value) value {
+		return mkval(fr.i.path.bank().Or(boolList(fr, args[1])...), types.Bool)
+	})
+	H("Not", func(fr *frame, args []value) value {
+		b := fr.i.path.bank()
+		return mkval(b.Not(termOf(b, args[1])), types.Bool)
+	})
+	H("Implies", func(fr *frame, args []value) value {
+		b := fr.i.path.bank()
+		return mkval(b.Implies(termOf(b, args[1]), termOf(b, args[2])), types.Bool)
+	})
+	H("Iff", func(fr *frame, args []value) value {
+		b := fr.i.path.bank()
+		return mkval(b.Eq(termOf(b, args[1]), termOf(b, args[2])), types.Bool)
+	})
+	H("StrEq", func(fr *frame, args []value) value {
+		return mkval(bytesEqTerm(fr.i.path.bank(), strBytes(args[1]), strBytes(args[2])), types.Bool)
+	})
+	H("HasPrefix", func(fr *frame, args []value) value {
+		s, p := strBytes(args[1]), strBytes(args[2])
+		if len(p) > len(s) {
+			return false
+		}
+		return mkval(bytesEqTerm(fr.i.path.bank(), s[:len(p)], p), types.Bool)
+	})
+	H("HasSuffix", func(fr *frame, args []value) value {
+		s, p := strBytes(args[1]), strBytes(args[2])
+		if len(p) > len(s) {
+			return false
+		}
+		return mkval(bytesEqTerm(fr.i.path.bank(), s[len(s)-len(p):], p), types.Bool)
+	})
 	H("Param", func(fr *frame, args []value) value {
 		if v, ok := fr.i.path.w.eng.cfg.Params[nameOf(args[1])]; ok {
 			return v
